@@ -230,6 +230,6 @@ Proof.
   rewrite Hk in Hk'. inversion Hk'; subst acc' it'. clear Hk'.
   assert (L1 : (weight acc <= weight t)%Z) by (apply Hkm; apply (sf_transfer (arcs g)); assumption).
   assert (L2 : (weight t <= weight acc)%Z) by (apply Hpm; apply (sf_transfer edges); assumption).
-  assert (E : tot = weight acc) by congruence. clear Htot. subst tot.
-  split; [rewrite Ho; f_equal; lia|split; [reflexivity|lia]].
+  assert (E : tot = weight acc) by congruence.
+  split; [rewrite Ho; f_equal; lia|split; [lia|lia]].
 Qed.
